@@ -52,6 +52,8 @@ type c06 struct {
 	// alias: local variables of the function under analysis that hold a reference obtained from shared memory
 	// (`c := target.redirectCache`, `u := t.URL`, `for _, r := range t[host]`), with what they refer to
 	alias map[types.Object]string
+	// lockedHelpers: unexported helpers that run only inside GlobCache.Get's critical section
+	lockedHelpers map[types.Object]bool
 }
 
 func c06FuncName(fd *ast.FuncDecl) string {
@@ -181,7 +183,7 @@ func (c *c06) describe(e ast.Expr) string {
 	case *ast.Ident:
 		if o := c.info.Uses[v]; o != nil {
 			if vr, ok := o.(*types.Var); ok && !vr.IsField() && vr.Parent() == c.pkg.Scope() {
-				return "var " + v.Name
+				return "var:" + c.varKind(vr)
 			}
 			if a, ok := c.alias[o]; ok {
 				return a
@@ -197,6 +199,118 @@ func (c *c06) describe(e ast.Expr) string {
 		return c.describe(v.X)
 	}
 	return ""
+}
+
+// varKind names a package-level variable by what it is — its declared type, or the callee of its initialiser —
+// so that renaming it does not change a fact ("var:sync.Once", "var:rand.New()").
+func (c *c06) varKind(vr *types.Var) string {
+	for _, f := range c.x.files("route") {
+		for _, d := range f.Decls {
+			gd, ok := d.(*ast.GenDecl)
+			if !ok || gd.Tok != token.VAR {
+				continue
+			}
+			for _, sp := range gd.Specs {
+				vs := sp.(*ast.ValueSpec)
+				for i, n := range vs.Names {
+					if c.info.Defs[n] != vr {
+						continue
+					}
+					if vs.Type != nil {
+						return c.x.src(vs.Type)
+					}
+					if i < len(vs.Values) {
+						if call, ok := vs.Values[i].(*ast.CallExpr); ok {
+							return c.x.src(call.Fun) + "()"
+						}
+						if _, ok := vs.Values[i].(*ast.CompositeLit); ok {
+							return c.x.src(vs.Values[i].(*ast.CompositeLit).Type)
+						}
+					}
+					return "untyped"
+				}
+			}
+		}
+	}
+	return "?"
+}
+
+// pickerFunc: the function registered under a strategy name in the exported map route.Picker (a role, not a name).
+func (c *c06) pickerFunc(key string) (types.Object, *ast.FuncDecl) {
+	e := c.x.valueSpec("route", "Picker")
+	cl, ok := e.(*ast.CompositeLit)
+	if !ok {
+		c.x.fail("route.Picker is not a composite literal")
+		return nil, nil
+	}
+	for _, el := range cl.Elts {
+		kv, ok := el.(*ast.KeyValueExpr)
+		if !ok {
+			continue
+		}
+		if k, ok := c.x.strLit(kv.Key); ok && k == key {
+			if id, ok := kv.Value.(*ast.Ident); ok {
+				if o := c.info.Uses[id]; o != nil {
+					return o, c.funcs[o]
+				}
+			}
+		}
+	}
+	c.x.fail("route.Picker[%q] not found", key)
+	return nil, nil
+}
+
+// externalCalls: every call reachable from fd inside the package (helpers and func-literal variables are followed)
+// whose callee is not an in-package function: by callee text, with a package-level receiver named by its kind.
+func (c *c06) externalCalls(fd *ast.FuncDecl) []string {
+	seen := map[*ast.FuncDecl]bool{}
+	out := map[string]bool{}
+	var walk func(fd *ast.FuncDecl, depth int)
+	walk = func(fd *ast.FuncDecl, depth int) {
+		if fd == nil || fd.Body == nil || seen[fd] || depth > 4 {
+			return
+		}
+		seen[fd] = true
+		ast.Inspect(fd.Body, func(n ast.Node) bool {
+			call, ok := n.(*ast.CallExpr)
+			if !ok {
+				return true
+			}
+			switch f := call.Fun.(type) {
+			case *ast.FuncLit:
+			case *ast.Ident:
+				if o := c.info.Uses[f]; o != nil {
+					if callee, ok := c.funcs[o]; ok {
+						walk(callee, depth+1)
+						return true
+					}
+				}
+				out[f.Name] = true
+			case *ast.SelectorExpr:
+				if o := c.info.Uses[f.Sel]; o != nil {
+					if callee, ok := c.funcs[o]; ok {
+						walk(callee, depth+1)
+						return true
+					}
+				}
+				if id, ok := f.X.(*ast.Ident); ok {
+					if vr, ok := c.info.Uses[id].(*types.Var); ok && !vr.IsField() && vr.Parent() == c.pkg.Scope() {
+						out["var:"+c.varKind(vr)+"."+f.Sel.Name] = true
+						return true
+					}
+				}
+				out[c.x.src(f)] = true
+			}
+			return true
+		})
+	}
+	walk(fd, 0)
+	var l []string
+	for k := range out {
+		l = append(l, k)
+	}
+	sort.Strings(l)
+	return l
 }
 
 // computeAliases fills c.alias for one function: a local assigned from (a reference into) shared memory keeps
@@ -384,6 +498,9 @@ func (c *c06) writes(fd *ast.FuncDecl, recvLocal bool) []c06Write {
 	var out []c06Write
 	c.computeAliases(fd)
 	lockPos, hasLock := c06LockPos(c.x, fd)
+	if c.lockedHelpers[c.info.Defs[fd.Name]] {
+		lockPos, hasLock = token.NoPos, true // runs only inside the caller's critical section
+	}
 	// isCopyWrite: the memory belongs to a per-request by-value copy: a field of the copy itself, or something
 	// reached through a field that this function freshly allocated on the copy. Anything else reached THROUGH
 	// a (shallow) copy is still the shared object's.
@@ -489,6 +606,110 @@ func (c *c06) isFreshThroughCopy(fd *ast.FuncDecl, e ast.Expr, recvObj types.Obj
 	return c.freshFields(fd, o)[firstField(e)]
 }
 
+// globEvents lists, in evaluation order, the accesses of one function to the fields of GlobCache ("read n", "write l",
+// "m.Store", …) with "LOCK" / "DEFER-UNLOCK" markers; a call to an in-package function or method with a body is
+// replaced by that function's own events (depth ≤ 4). Helpers spliced in while the lock is held are recorded.
+func (c *c06) globEvents(fd *ast.FuncDecl, depth int, stack map[*ast.FuncDecl]bool, locked bool, helpers map[types.Object]bool) []string {
+	if fd == nil || fd.Body == nil || depth > 4 || stack[fd] {
+		return nil
+	}
+	stack[fd] = true
+	defer delete(stack, fd)
+	type ev struct {
+		pos  token.Pos
+		seq  int
+		what string
+		call types.Object
+	}
+	var evs []ev
+	seq := 0
+	add := func(pos token.Pos, what string, call types.Object) {
+		seq++
+		evs = append(evs, ev{pos, seq, what, call})
+	}
+	written := map[ast.Node]bool{}
+	ast.Inspect(fd.Body, func(n ast.Node) bool {
+		switch v := n.(type) {
+		case *ast.DeferStmt:
+			if se, ok := v.Call.Fun.(*ast.SelectorExpr); ok && (se.Sel.Name == "Unlock" || se.Sel.Name == "RUnlock") {
+				add(v.Pos(), "DEFER-UNLOCK", nil)
+				return false
+			}
+		case *ast.AssignStmt:
+			for _, l := range v.Lhs {
+				if d := c.describe(l); strings.HasPrefix(d, "GlobCache.") {
+					base := l
+					if ie, ok := l.(*ast.IndexExpr); ok {
+						base = ie.X
+					}
+					written[base] = true
+					// `c.h = (c.h+1) % c.n` evaluates its right-hand side first: the write goes to the end
+					add(v.End(), "write "+strings.TrimPrefix(d, "GlobCache."), nil)
+				}
+			}
+		case *ast.IncDecStmt:
+			if d := c.describe(v.X); strings.HasPrefix(d, "GlobCache.") {
+				add(v.Pos(), "read "+strings.TrimPrefix(d, "GlobCache."), nil)
+				add(v.End(), "write "+strings.TrimPrefix(d, "GlobCache."), nil)
+				written[v.X] = true
+			}
+		case *ast.CallExpr:
+			if se, ok := v.Fun.(*ast.SelectorExpr); ok {
+				if inner, ok := se.X.(*ast.SelectorExpr); ok && c.describe(inner) == "GlobCache.m" {
+					written[inner] = true
+					add(v.End(), "m."+se.Sel.Name, nil)
+				}
+				if se.Sel.Name == "Lock" && len(v.Args) == 0 {
+					add(v.Pos(), "LOCK", nil)
+				}
+				if o := c.info.Uses[se.Sel]; o != nil {
+					if _, ok := c.funcs[o]; ok {
+						add(v.End(), "", o)
+					}
+				}
+			}
+			if id, ok := v.Fun.(*ast.Ident); ok {
+				if o := c.info.Uses[id]; o != nil {
+					if _, ok := c.funcs[o]; ok {
+						add(v.End(), "", o)
+					}
+				}
+			}
+		}
+		return true
+	})
+	ast.Inspect(fd.Body, func(n ast.Node) bool {
+		if se, ok := n.(*ast.SelectorExpr); ok && !written[se] {
+			if d := c.describe(se); d == "GlobCache.l" || d == "GlobCache.h" || d == "GlobCache.n" {
+				add(se.Pos(), "read "+strings.TrimPrefix(d, "GlobCache."), nil)
+			}
+		}
+		return true
+	})
+	sort.SliceStable(evs, func(i, j int) bool {
+		if evs[i].pos != evs[j].pos {
+			return evs[i].pos < evs[j].pos
+		}
+		return evs[i].seq < evs[j].seq
+	})
+	var out []string
+	for _, e := range evs {
+		switch {
+		case e.call != nil:
+			if locked && depth+1 <= 4 {
+				helpers[e.call] = true
+			}
+			out = append(out, c.globEvents(c.funcs[e.call], depth+1, stack, locked, helpers)...)
+		default:
+			if e.what == "LOCK" {
+				locked = true
+			}
+			out = append(out, e.what)
+		}
+	}
+	return out
+}
+
 // c06LockPos: position of the first `<recv>.<mutex>.Lock()` statement of the body.
 func c06LockPos(x *X, fd *ast.FuncDecl) (token.Pos, bool) {
 	var pos token.Pos
@@ -567,6 +788,7 @@ func c06LeanTriples(name string, ws []c06Write) string {
 
 func init() {
 	register("C06", func(x *X) error {
+		x.UseNormalizedAST() // named constants = literals, switch = if-chain
 		c := &c06{x: x}
 		if !c.load("route") {
 			x.fail("route: type check produced no package")
@@ -574,7 +796,7 @@ func init() {
 		}
 
 		// ---- rrPicker ----
-		if fd := x.funcDecl("route", "", "rrPicker"); fd != nil {
+		if _, fd := c.pickerFunc("rr"); fd != nil {
 			plainReads, atomics := 0, 0
 			indexFromAtomic := false
 			atomicResult := map[types.Object]bool{}
@@ -715,33 +937,10 @@ func init() {
 		}
 		sort.Strings(ri)
 		x.defStrList("routeRandImports", ri)
-		// (b) every call made by randIntn and rndPicker, by callee text; (c) the callee that yields the random number
-		for _, fn := range []string{"randIntn", "rndPicker"} {
-			var fd *ast.FuncDecl
-			for o, d := range c.funcs {
-				if o.Name() == fn && o.Parent() == c.pkg.Scope() {
-					fd = d
-				}
-			}
-			if fd == nil {
-				x.fail("route: %s not found", fn)
-				continue
-			}
-			var calls []string
-			seenCall := map[string]bool{}
-			ast.Inspect(fd.Body, func(n ast.Node) bool {
-				if call, ok := n.(*ast.CallExpr); ok {
-					if _, isLit := call.Fun.(*ast.FuncLit); !isLit {
-						if t := x.src(call.Fun); !seenCall[t] {
-							seenCall[t] = true
-							calls = append(calls, t)
-						}
-					}
-				}
-				return true
-			})
-			sort.Strings(calls)
-			x.defStrList(fn+"Calls", calls)
+		// (b) every call made by the function registered as route.Picker["rnd"], helpers and func-literal variables
+		//     followed: the callee that yields the random number must be math/rand's top-level function
+		if _, fd := c.pickerFunc("rnd"); fd != nil {
+			x.defStrList("rndPickerCalls", c.externalCalls(fd))
 		}
 
 		// ---- GlobCache ----
@@ -763,68 +962,27 @@ func init() {
 			})
 		}
 		x.defBool("globHasMutex", hasMutex)
+		lockedHelpers := map[types.Object]bool{}
 		if fd := x.funcDecl("route", "GlobCache", "Get"); fd != nil {
-			lockPos, hasLock := c06LockPos(x, fd)
-			deferred := false
-			ast.Inspect(fd.Body, func(n ast.Node) bool {
-				if d, ok := n.(*ast.DeferStmt); ok && strings.HasSuffix(x.src(d.Call.Fun), ".Unlock") && d.Pos() > lockPos {
-					// the defer must follow the Lock immediately (no statement between them can return)
-					deferred = true
-				}
-				return true
-			})
-			type ev struct {
-				pos  token.Pos
-				what string
-			}
-			var evs []ev
-			written := map[ast.Node]bool{}
-			ast.Inspect(fd.Body, func(n ast.Node) bool {
-				switch v := n.(type) {
-				case *ast.AssignStmt:
-					for _, l := range v.Lhs {
-						if d := c.describe(l); strings.HasPrefix(d, "GlobCache.") {
-							base := l
-							if ie, ok := l.(*ast.IndexExpr); ok {
-								base = ie.X
-							}
-							written[base] = true
-							evs = append(evs, ev{v.End(), "write " + strings.TrimPrefix(d, "GlobCache.")})
-							// an assignment `c.h = (c.h+1) % c.n` evaluates its right-hand side first: the reads
-							// keep their own source positions, the write is placed at the end of the statement
-						}
-					}
-				case *ast.IncDecStmt:
-					if d := c.describe(v.X); strings.HasPrefix(d, "GlobCache.") {
-						evs = append(evs, ev{v.Pos(), "read " + strings.TrimPrefix(d, "GlobCache.")})
-						evs = append(evs, ev{v.End(), "write " + strings.TrimPrefix(d, "GlobCache.")})
-						written[v.X] = true
-					}
-				case *ast.CallExpr:
-					if se, ok := v.Fun.(*ast.SelectorExpr); ok {
-						if inner, ok := se.X.(*ast.SelectorExpr); ok && c.describe(inner) == "GlobCache.m" {
-							written[inner] = true
-							evs = append(evs, ev{v.End(), "m." + se.Sel.Name})
-						}
-					}
-				}
-				return true
-			})
-			ast.Inspect(fd.Body, func(n ast.Node) bool {
-				if se, ok := n.(*ast.SelectorExpr); ok && !written[se] {
-					if d := c.describe(se); d == "GlobCache.l" || d == "GlobCache.h" || d == "GlobCache.n" {
-						evs = append(evs, ev{se.Pos(), "read " + strings.TrimPrefix(d, "GlobCache.")})
-					}
-				}
-				return true
-			})
-			sort.SliceStable(evs, func(i, j int) bool { return evs[i].pos < evs[j].pos })
+			// ordered events of Get with the bodies of the in-package helpers it calls spliced in at the call
+			// (extract / inline helper leaves the list unchanged)
+			evs := c.globEvents(fd, 0, map[*ast.FuncDecl]bool{}, false, lockedHelpers)
 			var unlocked, locked []string
+			hasLock, deferred, isLocked := false, false, false
 			for _, e := range evs {
-				if hasLock && e.pos > lockPos {
-					locked = append(locked, e.what)
-				} else {
-					unlocked = append(unlocked, e.what)
+				switch e {
+				case "LOCK":
+					hasLock, isLocked = true, true
+				case "DEFER-UNLOCK":
+					if isLocked {
+						deferred = true
+					}
+				default:
+					if isLocked {
+						locked = append(locked, e)
+					} else {
+						unlocked = append(unlocked, e)
+					}
 				}
 			}
 			x.defBool("globGetLocks", hasLock)
@@ -832,17 +990,41 @@ func init() {
 			x.defStrList("globGetUnlocked", unlocked)
 			x.defStrList("globGetLocked", locked)
 		}
-		// other methods of GlobCache / functions that touch l, h, n outside Get and the constructor
+		// a helper spliced in under the lock must not be callable from anywhere else without it: every call site
+		// lies in Get after the Lock or in another such helper
+		for changed := true; changed; {
+			changed = false
+			for h := range lockedHelpers {
+				for o, fd := range c.funcs {
+					if lockedHelpers[o] {
+						continue
+					}
+					lockPos, hasLock := c06LockPos(x, fd)
+					ast.Inspect(fd.Body, func(n ast.Node) bool {
+						if id, ok := n.(*ast.Ident); ok && c.info.Uses[id] == h {
+							if !(c06FuncName(fd) == "GlobCache.Get" && hasLock && id.Pos() > lockPos) {
+								delete(lockedHelpers, h)
+								changed = true
+							}
+						}
+						return true
+					})
+				}
+			}
+		}
+		c.lockedHelpers = lockedHelpers
+		// other functions that touch the cache's fields: anything but Get, the constructor and the helpers that
+		// run only under Get's lock (reported by what they touch, not by their name)
 		var strays []string
-		for _, fd := range c.funcs {
+		for o, fd := range c.funcs {
 			n := c06FuncName(fd)
-			if n == "GlobCache.Get" || n == "NewGlobCache" {
+			if n == "GlobCache.Get" || n == "NewGlobCache" || lockedHelpers[o] {
 				continue
 			}
 			ast.Inspect(fd.Body, func(m ast.Node) bool {
 				if se, ok := m.(*ast.SelectorExpr); ok {
 					if d := c.describe(se); strings.HasPrefix(d, "GlobCache.") {
-						strays = append(strays, n+": "+d)
+						strays = append(strays, d)
 					}
 				}
 				return true
@@ -917,6 +1099,35 @@ func init() {
 		sort.Strings(reach)
 		x.defStrList("lookupReach", reach)
 		x.defRaw(c06LeanTriples("lookupWrites", ws))
+		// the same without the name of the function the write sits in (helpers may be extracted, inlined, renamed)
+		seenKW := map[[2]string]bool{}
+		var kws [][2]string
+		for _, w := range ws {
+			k := [2]string{w.kind, w.what}
+			if !seenKW[k] {
+				seenKW[k] = true
+				kws = append(kws, k)
+			}
+		}
+		sort.Slice(kws, func(i, j int) bool {
+			if kws[i][0] != kws[j][0] {
+				return kws[i][0] < kws[j][0]
+			}
+			return kws[i][1] < kws[j][1]
+		})
+		var kwParts []string
+		for _, k := range kws {
+			kwParts = append(kwParts, fmt.Sprintf("(%s, %s)", leanStr(k[0]), leanStr(k[1])))
+		}
+		x.defRaw(fmt.Sprintf("def lookupWriteKinds : List (String × String) := [%s]", strings.Join(kwParts, ",\n  ")))
+		// both strategies of route.Picker are inside the analysed reach
+		pickersIn := true
+		for _, k := range []string{"rr", "rnd"} {
+			if o, _ := c.pickerFunc(k); o == nil || !seen[o] {
+				pickersIn = false
+			}
+		}
+		x.defBool("pickersInReach", pickersIn)
 
 		// ---- proxy.ServeHTTP: writes through the target ----
 		var pw, pm, pc, pa []string
@@ -963,7 +1174,7 @@ func init() {
 					if _, direct := se.X.(*ast.Ident); direct {
 						pm = append(pm, "Target."+se.Sel.Name) // a method of route.Target: must be in lookupReach
 					} else if !c06ReadOnly[se.Sel.Name] {
-						pc = append(pc, x.src(se))
+						pc = append(pc, "target"+strings.TrimPrefix(x.src(se), tname))
 					}
 				}
 				return true
@@ -979,8 +1190,8 @@ func init() {
 						continue
 					}
 					if id := c06RootIdent(r); id != nil && id.Name == tname {
-						if l, ok := as.Lhs[i].(*ast.Ident); ok {
-							pa = append(pa, l.Name+" := "+x.src(r))
+						if _, ok := as.Lhs[i].(*ast.Ident); ok {
+							pa = append(pa, "target"+strings.TrimPrefix(x.src(r), tname))
 						}
 					}
 				}
